@@ -187,7 +187,7 @@ B2 = ('b', (((), V0), ((), V0)))
 
 
 def alphabets(ot):
-    """(full, reduced) item alphabets of an object type"""
+    """(full, middle, reduced) item alphabets of an object type"""
     T = ot.T
     nm = len(ot.makers)
     full = [((), ('v', j)) for j in range(nm)]
@@ -223,12 +223,35 @@ def alphabets(ot):
     if p2:
         mid = p2[min(1, len(p2) - 1)]
         red.append((mid[0], V0))
-    seen, r2 = set(), []
-    for x in red:
-        if x not in seen:
-            seen.add(x)
-            r2.append(x)
-    return full, r2
+    mid = list(red)
+    if p1:
+        agg = [(d, t) for d, t in p1 if is_agg(t)]
+        if agg:
+            mid.append((agg[0][0], B2))
+            if len(agg) > 1:
+                mid.append((agg[-1][0], B1))
+        if ot.strings:
+            tgt = [(d, t) for d, t in p1 if is_agg(t) or (isinstance(t, L.Scalar) and t.cls == 'ptr')]
+            if tgt:
+                mid.append((tgt[0][0], ('s', ot.strings[-1])))
+    if p2:
+        mid.append((p2[0][0], V0))
+        mid.append((p2[-1][0], V0))
+    elif isinstance(T, L.Record):
+        mid += [(d, V0) for d, _ in p1]         # records of scalars / bit-fields: every member designator
+    if sub is not None and desigs1(sub):
+        mid.append(((), ('b', ((desigs1(sub)[0][0], V0),))))
+    if ot.strings:
+        mid.append(((), ('s', ot.strings[0])))
+
+    def dedupe(xs):
+        seen, out = set(), []
+        for x in xs:
+            if x not in seen:
+                seen.add(x)
+                out.append(x)
+        return out
+    return full, dedupe(mid)[:13], dedupe(red)
 
 
 def render_init(ot, init, ctr, sem):
@@ -296,10 +319,12 @@ class RInit:
     def __init__(self, ot, sem, hyp=None, trace=None):
         self.ot, self.sem, self.trace = ot, sem, trace
         # known-defect hypotheses (variants of R used ONLY to file an already established difference under the right key)
-        self.no_reset = hyp == 'no_reset'              # a brace list for an already initialised aggregate does not reset it
-        self.bool_raw = hyp == 'bool_raw'              # a constant converted to _Bool keeps its value
-        self.drop_empty = hyp == 'drop_empty'          # a leading {} item is ignored instead of initialising a subobject
-        self.last_elem = hyp == 'last_elem'            # overriding the LAST element of a string-initialised array drops the string
+        hyp = hyp or ()
+        self.no_reset = 'no_reset' in hyp              # a brace list for an already initialised aggregate does not reset it
+        self.bool_raw = 'bool_raw' in hyp              # a constant converted to _Bool keeps its value
+        self.drop_empty = 'drop_empty' in hyp          # a leading {} item is ignored instead of initialising a subobject
+        self.last_elem = 'last_elem' in hyp            # overriding the LAST element of a string-initialised array drops the string
+        self.union_keep = 'union_keep' in hyp          # initialising another union member keeps the bytes of the previous one
         self.strregions = {}
         self.pos = 0
         self.img = bytearray()
@@ -372,7 +397,7 @@ class RInit:
         f = L.layout(t).fields[idx]
         if t.kind == 'union':
             key = (fr.off, id(t))
-            if key in self.active and self.active[key] != idx:
+            if key in self.active and self.active[key] != idx and not self.union_keep:
                 self.zero(fr.off, tsize_bits(t))
             self.active[key] = idx
         m = f.member
@@ -582,13 +607,19 @@ class RInit:
 HYPOTHESES = (('no_reset', 'image/aggregate-reinit-keeps-stale-members'),
               ('bool_raw', 'image/bool-member-not-converted-to-0-or-1'),
               ('drop_empty', 'image/leading-empty-braces-ignored'),
-              ('last_elem', 'image/string-lost-when-last-array-element-overridden'))
+              ('last_elem', 'image/string-lost-when-last-array-element-overridden'),
+              ('union_keep', 'image/union-member-switch-keeps-previous-member'))
 
 
 def explain(ot, top, sem, match):
     """key of the known-defect hypothesis whose image satisfies match(image key), else None"""
     for h, key in HYPOTHESES:
-        R = model(ot, top, sem, hyp=h)
+        R = model(ot, top, sem, hyp=(h,))
+        if R[0] == 'ok' and match((R[1], R[2], tuple(R[3]))):
+            return key
+    # two known defects at once: filed under the first of the pair
+    for (h1, key), (h2, _) in itertools.combinations(HYPOTHESES, 2):
+        R = model(ot, top, sem, hyp=(h1, h2))
         if R[0] == 'ok' and match((R[1], R[2], tuple(R[3]))):
             return key
     return None
@@ -615,7 +646,7 @@ def lists(alpha, n):
 def gen_cases(quick):
     """yields (stratum, type index, top)"""
     for ti, ot in enumerate(TYPES):
-        full, red = alphabets(ot)
+        full, mid, red = alphabets(ot)
         # bare initialisers
         for j in range(len(ot.makers)):
             yield 'bare', ti, ('v', j)
@@ -627,9 +658,9 @@ def gen_cases(quick):
                 yield 'len%d-full' % n, ti, ('b', items)
         lo, hi = bound_full + 1, (3 if quick else 4)
         for n in range(lo, hi + 1):
-            alpha = red if n < 4 or len(red) <= 9 else red[:9]
+            alpha = mid if n == 3 else red
             for items in lists(alpha, n):
-                yield 'len%d-reduced' % n, ti, ('b', items)
+                yield 'len%d-%s' % (n, 'middle' if n == 3 else 'reduced'), ti, ('b', items)
         # C23 empty braces (compared with the witnesses in GNU mode)
         E = ((), ('b', ()))
         yield 'empty-braces', ti, ('b', ())
@@ -764,6 +795,18 @@ def cproc_static(srv, ot, i, text, target='x86_64-sysv'):
     if o is None:
         return 0, ('unreadable', 'no definition emitted'), None, b''
     return 0, (o.size, o.image, tuple(L.resolve_relocs(objs, o))), o.align, b''
+
+
+VARIANT_STRATA = ('bare', 'len1-full', 'len2-full')
+
+
+def variants(ot, i, itext):
+    """[(name, unit text, object name)]: the same initialiser for a thread-local object and for a static compound literal"""
+    T = ot.T
+    out = [('thread', '_Thread_local ' + decl_text(ot, 'x%d' % i, itext), 'x%d' % i)]
+    if itext.startswith('{'):
+        out.append(('compound-literal', '%s = &(%s)%s;' % (T.decl('(*x%d)' % i), T.decl('').strip(), itext), 'x%d' % i))
+    return out
 
 
 def sized_type(ot, size):
@@ -910,7 +953,7 @@ def job(batch):
 
     out = {'stratum': stratum, 'cases': len(cases), 'evals': 0, 'compared': 0, 'witness_warned': 0, 'witness_split': 0, 'witness_differ': 0,
            'expected_reject': 0, 'model_disagrees': [], 'viol': [], 'distinct': set(), 'sample': None, 'd_run': 0, 'd_compared': 0,
-           'cross_target': 0, 'witness_unknown': 0, 'ambiguous': 0, 'amb_samples': [], 'witness_reject_model_accepts': 0}
+           'cross_target': 0, 'witness_unknown': 0, 'ambiguous': 0, 'amb_samples': [], 'witness_reject_model_accepts': 0, 'variants': 0}
     info = {}
     decls = {}
     for i, ti, top in cases:
@@ -994,6 +1037,29 @@ def job(batch):
             out['cross_target'] += 1
             if st2 != 0 or key2 != exp:
                 out['viol'].append(('target-%s/%s' % (tg, 'status-%d' % st2 if st2 else 'image-differs'), i, ti, c['text'], 'x86_64 image %s' % (_k(exp),), 'on %s: %s' % (tg, _k(key2) if key2 else st2)))
+        # thread storage and static compound literals take the same initialiser to the same image
+        if stratum in VARIANT_STRATA:
+            for vname, vtext, vobj in variants(ot, i, c['itext']):
+                r = srv.compile(PRELUDE + vtext + '\n', cpu_s=5)
+                out['variants'] += 1
+                k2 = None
+                if r.status == 0:
+                    try:
+                        objs = L.parse_qbe_data(r.out)
+                        o = objs.get(vobj)
+                        if vname == 'compound-literal' and o is not None and len(o.relocs) == 1 and o.relocs[0][3] == 0:
+                            o = objs.get(o.relocs[0][2])
+                        if o is not None:
+                            k2 = (o.size, o.image, tuple(L.resolve_relocs(objs, o)))
+                            if vname == 'thread' and not re.search(r'thread [^\n]*data \$%s ' % vobj, r.out.decode('latin-1')):
+                                k2 = ('unreadable', 'definition is not marked thread')
+                    except L.AsmError as e:
+                        k2 = ('unreadable', str(e))
+                if r.status not in (0, 1):
+                    out['viol'].append((crash_class(r.status, r.err, PRELUDE + vtext + '\n').replace('crash/', 'crash/%s-' % vname), i, ti, vtext, 'compiler status %d' % r.status, ''))
+                elif k2 != exp:
+                    out['viol'].append(('%s/%s' % (vname, 'rejected' if r.status else ('unreadable' if not k2 or k2[0] == 'unreadable' else diff_class(exp, k2))), i, ti, vtext,
+                                        'expected the image of the plain static object %s' % (_k(exp),), 'cproc: %s' % (_k(k2) if k2 else r.err.decode('latin-1').strip()[-160:])))
         if out['sample'] is None and len(c['itext']) > 12:
             out['sample'] = {'stratum': stratum, 'declaration': c['text'], 'expected_image': exp[1].hex(), 'expected_relocations': [str(r) for r in exp[2]],
                              'observed_image': key[1].hex(), 'witnesses': 'gcc clean, clang clean, identical'}
@@ -1051,7 +1117,7 @@ def _k(key):
 def main(chk):
     quick = chk.quick
     TOTKEYS = ('cases', 'evals', 'compared', 'witness_warned', 'witness_split', 'witness_differ', 'expected_reject', 'd_run',
-               'd_compared', 'cross_target', 'witness_unknown', 'witness_reject_model_accepts')
+               'd_compared', 'cross_target', 'witness_unknown', 'witness_reject_model_accepts', 'variants')
     tot = {k: 0 for k in TOTKEYS}
     ambs = []
     states, trans, distinct = set(), set(), set()
@@ -1086,8 +1152,8 @@ def main(chk):
     if chk.seed:
         k = chk.seed % len(work)
         work = work[k:] + work[:k]
-    chk.log('%d cases in %d batches; alphabets (full/reduced): %s' % (
-        n, len(work), ', '.join('%s %d/%d' % (ot.name, len(alphabets(ot)[0]), len(alphabets(ot)[1])) for ot in TYPES)))
+    chk.log('%d cases in %d batches; item alphabets (full/middle/reduced): %s' % (
+        n, len(work), ', '.join('%s %d/%d/%d' % ((ot.name,) + tuple(len(a) for a in alphabets(ot))) for ot in TYPES)))
     done = 0
     for res in fs.pimap(job, work):
         done += 1
@@ -1136,11 +1202,11 @@ def main(chk):
         for v in vs:
             chk.violation(fam, '%s   %s; %s' % (text, a, b), files={'input.c': src.encode()},
                           cmd='$CPROC_QBE input.c; echo "status $?"   # %s' % a.replace('\n', ' ')[:300])
-    seen_amb = set()
+    namb = {}
     for kind, text in ambs:
-        k2 = kind.split(':')[0] + TYPES[0].name
-        if sum(1 for x in seen_amb if x == kind.split(':')[0]) < 4:
-            seen_amb.add(kind.split(':')[0] + text)
+        k2 = kind.split(':')[0]
+        namb[k2] = namb.get(k2, 0) + 1
+        if namb[k2] <= 5:
             chk.notes.append('not judged (%s): %s' % (kind, text))
     for m in mdis[:12]:
         chk.notes.append('reference model disagrees with both witnesses (not judged): %r' % (m,))
@@ -1151,7 +1217,8 @@ def main(chk):
         'transitions': len(trans),
         'traces_validated_against_impl': tot['evals'],
         'samples': samples or [{'none': True}],
-        'evaluations': tot['evals'] + tot['cross_target'] + tot['d_compared'],
+        'evaluations': tot['evals'] + tot['cross_target'] + tot['d_compared'] + tot['variants'],
+        'thread_and_compound_literal_variants_compared': tot['variants'],
         'cases': tot['cases'],
         'cases_per_type': per_type,
         'static_images_compared_with_both_witnesses': tot['compared'],
